@@ -8,7 +8,7 @@ open OPM OPM.Wire OPM.CmdMgr
 /-!
 ops (tab separated), see `harness/cmdmgr.py`:
   `cfg <durs> <fails> <overlaps> <variant>`  variant = two digits: fixCancel fixInstr
-  `req <k>` · `user start|stop|restart` · `tick` · `cancel <id>` · `force <id>` · `sim <j>` · `pause 0|1`
+  `req <k> [bad]` · `user start|stop|restart` · `tick` · `cancel <id>` · `force <id>` · `sim <j>` · `pause 0|1`
 answer: `<reply> | ev=… ex=… qu=… in=… tr=… st=… sys=… run=… sim=… rs=… stop=…`
 -/
 
@@ -59,19 +59,21 @@ def showTrack (t : Track) : String :=
 
 def showTracks (l : List Track) : String := join ";" (l.map showTrack)
 
-def insertSorted (c : Cmd) : List Cmd → List Cmd
+def insertSorted (c : Nat × String) : List (Nat × String) → List (Nat × String)
   | [] => [c]
-  | d :: rest => if c.name ≤ d.name then c :: d :: rest else d :: insertSorted c rest
+  | d :: rest => if c.1 ≤ d.1 then c :: d :: rest else d :: insertSorted c rest
 
 def obs (d : DState) : DState × String :=
   let s := d.s
   let ev := join "," ((s.events.drop d.seenEv).map showEv)
-  let live := (s.objs.filter (·.inMap)).foldr insertSorted []
+  -- `uod.command_instances` by name: initialised instances and (`k:-:owner:0`) never initialised ones
+  let live := ((s.objs.filter (·.inMap)).map (fun c => (c.name, showCmd c)) ++
+      s.stale.map (fun e => (e.1, s!"{e.1}:-:{e.2}:0"))).foldr insertSorted []
   let stops := s.stopLog.drop d.seenStop
   let sys := match s.sys with | .running => "R" | .stopped => "S" | .restarting => "T"
   let run := match s.runId with | none => "-" | some n => toString n
   let txt := s!"ev={ev} ex={join "," (s.executing.map showReq)} qu={join "," (s.queue.map showReq)} " ++
-    s!"in={join "," (live.map showCmd)} tr={showTracks s.track} " ++
+    s!"in={join "," (live.map (·.2))} tr={showTracks s.track} " ++
     s!"st={showBool s.started}{showBool s.stopping}{showBool s.tracking}{showBool s.paused} sys={sys} run={run} " ++
     s!"sim={join "," ((List.range 8).filter (s.simulated.contains ·) |>.map toString)} rs={s.resets} " ++
     s!"stop={if stops.isEmpty then "none" else "/".intercalate (stops.map showTracks)}"
@@ -109,6 +111,7 @@ def step (d : DState) (line : String) : DState × String :=
       else (d, "bad-op")
     | _, _, _ => (d, "bad-op")
   | ["req", k] => match k.toNat? with | some k => apply d (.req k) | none => (d, "bad-op")
+  | ["req", k, "bad"] => match k.toNat? with | some k => apply d (.req k true) | none => (d, "bad-op")
   | ["user", n] => match parseName n with | some n => apply d (.user n) | none => (d, "bad-op")
   | ["tick"] => apply d .tick
   | ["cancel", i] => match i.toNat? with | some i => apply d (.cancel i) | none => (d, "bad-op")
